@@ -11,17 +11,30 @@ REQUIRED_BRANCHES = [
     "best-several", "best-sep-before", "best-sep-after", "best-html", "best-ansi",
     "e2e:matched:match", "e2e:matched:phrase", "e2e:matched:prefix", "e2e:matched:fuzzy", "e2e:matched:term",
     "e2e:text-with-U+FFFD", "fsize:1", "fsize:5", "fsize:20", "fsize:100", "fsize:200",
+    # equal Starts / nested locations / the set of admissible orders
+    "best-start-ties", "best-ties-agree", "best-ties-differ", "best-nested-locs",
+    "merge-nested-input", "e2e:analyzer:cjk", "e2e:analyzer:en",
+    "e2ex:matched", "e2ex:equal-start-different-end", "e2ex:nested", "e2ex:analyzer:shingle", "e2ex:analyzer:dict",
+    "e2ex:analyzer:edgengram", "e2ex:analyzer:ngram", "e2ex:analyzer:cjkuni", "e2em:matched",
 ]
 ASSUMPTIONS = [
     "Go int offsets do not overflow (Int in the model); []byte values have cap = len (the harness passes exact-capacity slices)",
     "unicode/utf8.DecodeRune/DecodeLastRune/RuneCount/Valid and html.EscapeString are transcribed by hand (Bluge.Highlight.decodeRune, "
     "decodeLastRune, runeCount, validUtf8, htmlEscape) and compared with the real functions on every run (ops dr/dlr/rc/valid/esc)",
-    "OrderTermLocations: Go's sort.Sort is not stable and the map iteration order is random, so the order among locations with equal "
-    "Start is unspecified; the model sorts stably and the correspondence feeds BestFragments only location sets with distinct Starts",
+    "OrderTermLocations: Go's sort.Sort is not stable and the map iteration order is random; assumed of sort.Sort only that it returns a "
+    "permutation in which no element is Less than an earlier one (Bluge.Highlight.sortedFor). The theorems quantify over every such order "
+    "(bestFragmentsOrd); the harness calls BestFragments repeatedly on the same map and the driver accepts exactly the outputs of the "
+    "Less-sorted orders it enumerates (at most 48 per line: the generator keeps <= 3 spans per Start and <= 2 tied Starts)",
+    "marks_are_runs_partial / order_independent_partial / bundled_marks_and_order assume locations whose Starts and Ends both increase "
+    "strictly (Bluge.Highlight.advancing: implies sorted, Ends never decrease, no equal Starts, no empty span; proved for disjoint tokens, "
+    "their CJK bigrams and any selection of them): evaluated on the locations of every real search with a bundled analyzer on a "
+    "single-valued field (verdict bad:assumption-bundled-analyzer-locations-not-advancing if one breaks it); that the bundled analyzers "
+    "only emit such tokens is C18's subject, here it is checked, not proved",
     "container/heap's up/down are transcribed (heapUp/heapDown); the order in which equal-score fragments are popped is part of the compared output",
     "faithfulness theorems assume `locsOK`: valid UTF-8 text, locations sorted by Start, 0 <= Start <= End <= len, Start and End on rune "
     "boundaries; the driver evaluates this predicate on the locations of every real search (verdict bad:assumption-… if one breaks it)",
-    "the model has one definition per repair variant (Bluge.Highlight.Variant: sizeGuard, locGuard, runeCut); which variant /repo is, is "
+    "the model has one definition per repair variant (Bluge.Highlight.Variant: sizeGuard, locGuard, runeCut, tieBreak, mergeMax = "
+    "work/C20/fix-1..5); which variant /repo is, is "
     "read off the source by go/extract/c20.go (exact guard forms, refusal otherwise) and confirmed by the correspondence run",
     "no-panic is judged (verdict bad:panic) on every entry point that takes locations: BestFragments, and direct Fragment / Format calls "
     "with fragments inside the text; fragment sizes are >= 1",
@@ -52,7 +65,9 @@ def signature(rec):
     v = rec["verdict"]
     try:
         ls = _locs(w[-1])
-        text = {"frag": 2, "fmt": 2, "best": 4, "beste": 4}.get(w[0])
+        if w[-1].startswith("quiet="):
+            w = w[:-1]
+        text = {"frag": 2, "fmt": 2, "best": 4, "beste": 4, "bestx": 4, "bestm": 4}.get(w[0])
         text = w[text] if text is not None else ""
     except Exception:
         return None
@@ -66,6 +81,17 @@ def signature(rec):
         return "fragment-bails-on-U+FFFD"
     if v == "bad:fragment-splits-rune" and not ls:
         return "no-locations-fragment-cut-at-byte-offset"
+    # real searches outside "bundled analyzer on one field value": analyzers assembled from the bundled shingle /
+    # dictionary-compound filters (bestx) and multi-valued fields (bestm). go/harness/c20 marks the oracle of a
+    # finding that is NOT listed in known_findings.json as quiet (the driver then answers ok + an open-finding:
+    # counter), so these verdicts only appear once the entry exists.
+    if w[0] == "bestx" and v == "bad:order-dependent-output":
+        return "equal-start-locations-order-dependent-output"
+    if w[0] == "bestx" and v == "bad:mark-not-occurrence-or-run":
+        return "merge-overlapping-mark-cut-at-nested-end"
+    if w[0] == "bestm" and v in ("bad:order-dependent-output", "bad:mark-not-occurrence-or-run",
+                                 "bad:assumption-search-locations-not-sorted-inrange-on-rune-boundaries"):
+        return "multi-valued-field-locations-of-all-values-applied"
     return None
 
 
